@@ -560,10 +560,16 @@ def isOrd : POp → Bool
 def isIs : POp → Bool
   | .is_ => true | .isNot => true | _ => false
 
+def isAttr : Expr → Bool
+  | .attr _ => true
+  | _ => false
+
 /-- THE HYPOTHESIS SET of `C01_cond`.  Outside it (differential only): a condition used as a value (`e.b == (e.a > 1)`, `(x > 1) + 1`),
     `not` over an `and`/`or` that truth-tests a possibly missing value, `pat not in s` for a possibly missing `s`, `is`/`is not`
-    between two values, comparisons between a number and a string, `None` anywhere but as the operand of `== != is is-not`,
-    mixed-type conditional expressions; and everything that is not in `Expr` at all. -/
+    between two values, comparisons between a number and a string, `x in (…)` with items of another type than `x`,
+    `None` anywhere but as the operand of `== != is is-not`, conditional expressions whose branches have different types,
+    `bool + bool`, unary minus / abs of a bool; on PostgreSQL additionally `not v` for a possibly missing bool value `v` that is not an
+    attribute (`NumericMixin.negate` emits `NOT COALESCE(v, true)` there);  and everything that is not in `Expr` at all. -/
 def frag (sch : Schema) (d : Dialect) : Expr → Bool
   | .attr _ => true | .cInt _ => true | .cStr _ => true | .cBool _ => true | .param _ => true
   | .cNone => false
@@ -572,14 +578,16 @@ def frag (sch : Schema) (d : Dialect) : Expr → Bool
       else if isNoneLit l then !isOrd op && valueSorted r && frag sch d r
       else !isIs op && valueSorted l && valueSorted r && frag sch d l && frag sch d r && sameClass (trTy sch d l) (trTy sch d r)
   | .inList _ x items =>
-      valueSorted x && frag sch d x && items.all (fun it => sameClass (trTy sch d x) (litTy it))
+      valueSorted x && frag sch d x && items.all (fun it => trTy sch d x == litTy it)
   | .like _ ng pat x => valueSorted x && frag sch d x && (!ng || nn sch x) && okPat d pat
   | .and l r => frag sch d l && frag sch d r
   | .or l r => frag sch d l && frag sch d r
-  | .not x => frag sch d x && (valueSorted x || exact sch x)
-  | .bin _ l r => valueSorted l && valueSorted r && frag sch d l && frag sch d r
-  | .neg x => valueSorted x && frag sch d x
-  | .abs x => valueSorted x && frag sch d x
+  | .not x =>
+      frag sch d x &&
+      (if valueSorted x then !(d.isPg && trTy sch d x == .bool && !isAttr x && !nn sch x) else exact sch x)
+  | .bin _ l r => valueSorted l && valueSorted r && frag sch d l && frag sch d r && !(trTy sch d l == .bool && trTy sch d r == .bool)
+  | .neg x => valueSorted x && frag sch d x && trTy sch d x == .int
+  | .abs x => valueSorted x && frag sch d x && trTy sch d x == .int
   | .len x => valueSorted x && frag sch d x
   | .ite c t e => frag sch d c && frag sch d t && frag sch d e && valueSorted t && valueSorted e && trTy sch d t == trTy sch d e
 
